@@ -95,7 +95,17 @@ def build_problem(spec, log, tag, delays=None):
     k = spec["kind"]
     if k == "single":
         return SingleObjectiveProblem(logging_ff(log, tag, lambda key: rows[key][0], delays), minimize=spec["min"])
-    ff = logging_ff(log, tag, lambda key: list(rows[key]), delays)
+    if spec.get("reuse_buffer"):
+        # a fitness function that fills and returns ONE preallocated list (a common optimisation in user code):
+        # what is recorded must be the values returned at the time of the call
+        buf: list = []
+
+        def into_buffer(key):
+            buf[:] = rows[key]
+            return buf
+        ff = logging_ff(log, tag, into_buffer, delays)
+    else:
+        ff = logging_ff(log, tag, lambda key: list(rows[key]), delays)
     if k == "multi":
         return MultiObjectiveProblem(list(spec["mins"]), ff)
     if k == "multibool":
@@ -186,6 +196,21 @@ def gen_scenario(rng, max_ind=6, max_calls=5):
             batch = [rng.randrange(n) for _ in range(rng.randint(1, 8))]
         calls.append((p, batch))
     return {"specs": specs, "keys": keys, "pre": pre, "calls": calls}
+
+
+def gen_big_scenario(rng):
+    """one batch of 17..26 distinct unevaluated individuals with pairwise different fitness values (a pool larger
+    than the machine's core count, more individuals than any per-worker cap)"""
+    n = rng.randint(17, 26)
+    vals = list(range(-n, n * 2))
+    rng.shuffle(vals)
+    if rng.random() < 0.5:
+        spec = {"kind": "single", "min": rng.random() < 0.5, "rows": [[vals[i]] for i in range(n)]}
+    else:
+        spec = {"kind": "multi", "mins": [rng.random() < 0.5, rng.random() < 0.5], "rows": [[vals[i], vals[n + i]] for i in range(n)]}
+    keys = list(range(n))
+    rng.shuffle(keys)
+    return {"specs": [spec], "keys": keys, "pre": [], "calls": [(0, list(range(n)))]}
 
 
 def dedupe(xs):
@@ -292,6 +317,11 @@ def check_sequential(h: Harness):
     rng = h.rng
     for k in range(h.n(400, 4000)):
         sc = gen_scenario(rng)
+        if k % 4 == 1:
+            for spec in sc["specs"]:
+                if spec["kind"] != "single":
+                    spec["reuse_buffer"] = True
+                    h.count("seq:fitness-function-reuses-one-list")
         ob = run_scenario(h, sc, "seq", via_tracker=(k % 3 == 2))
         h.count("seq:" + ("tracker" if k % 3 == 2 else "direct"))
         judge(h, sc, ob, "SequentialEvaluator" + (" via tracker" if k % 3 == 2 else ""))
@@ -311,6 +341,9 @@ def check_parallel(h: Harness):
     scenarios = [dict(s) for s in CORPUS_PAR]
     for _ in range(h.n(14, 80)):
         scenarios.append(gen_scenario(rng, max_ind=5, max_calls=3))
+    for _ in range(h.n(2, 8)):
+        scenarios.append(gen_big_scenario(rng))
+        h.count("par:big-batches")
     with tempfile.TemporaryDirectory(prefix="c13-") as tmp:
         for k, sc in enumerate(scenarios):
             n = len(sc["keys"])
